@@ -35,7 +35,102 @@ func (s absSeq) String() string {
 	return a + " [base " + s.base + "]"
 }
 
+// ---- in-place updates of the receiver's own array: array segments with symbolic bounds ----
+// Bounds are linear forms over d = len(*d) at entry, n = len(argument), c = cap(*d) at entry
+// (all >= 0). Comparisons are decided by the signs of the coefficients only; anything else is
+// undecided. Branch conditions are not interpreted (every branch is taken, as above).
+
+type lin map[string]int
+
+func linConst(k int) lin  { return lin{"1": k} }
+func linSym(s string) lin { return lin{s: 1} }
+func (a lin) add(b lin, sign int) lin {
+	out := lin{}
+	for k, v := range a {
+		out[k] += v
+	}
+	for k, v := range b {
+		out[k] += sign * v
+	}
+	for k, v := range out {
+		if v == 0 {
+			delete(out, k)
+		}
+	}
+	return out
+}
+func (a lin) isZero() bool { return len(a) == 0 }
+
+// sign: +1 if a >= 0 for all d,n,c >= 0 and a is not identically 0; -1 if a <= 0 likewise; 0 if a
+// is identically zero; 2 if unknown.
+func (a lin) sign() int {
+	if len(a) == 0 {
+		return 0
+	}
+	pos, neg := false, false
+	for _, v := range a {
+		if v > 0 {
+			pos = true
+		} else if v < 0 {
+			neg = true
+		}
+	}
+	switch {
+	case pos && !neg:
+		return 1
+	case neg && !pos:
+		return -1
+	}
+	return 2
+}
+func (a lin) String() string {
+	var parts []string
+	for _, k := range []string{"d", "n", "c", "1"} {
+		if v, ok := a[k]; ok {
+			name := map[string]string{"d": "len(list)", "n": "len(args)", "c": "cap(list)", "1": ""}[k]
+			switch {
+			case k == "1":
+				parts = append(parts, fmt.Sprint(v))
+			case v == 1:
+				parts = append(parts, name)
+			default:
+				parts = append(parts, fmt.Sprintf("%d*%s", v, name))
+			}
+		}
+	}
+	if len(parts) == 0 {
+		return "0"
+	}
+	return strings.Join(parts, "+")
+}
+
+// ipWrite: cells [lo, hi) of the receiver's array receive src[slo : slo+(hi-lo)], src being "D"
+// (the list's contents at entry) or "A" (the argument).
+type ipWrite struct {
+	lo, hi lin
+	src    string
+	slo    lin
+}
+
+type ipState struct {
+	touched bool   // the path updates the receiver's array in place
+	why     string // non-empty: undecided
+	curLen  lin    // current len(*d) (view at offset 0 of the receiver's array)
+	writes  []ipWrite
+	ints    map[types.Object]lin
+}
+
+func (s *ipState) clone() *ipState {
+	n := &ipState{touched: s.touched, why: s.why, curLen: s.curLen, ints: map[types.Object]lin{}}
+	n.writes = append(n.writes, s.writes...)
+	for k, v := range s.ints {
+		n.ints[k] = v
+	}
+	return n
+}
+
 type c19eval struct {
+	ip     *ipState
 	info   *types.Info
 	recv   types.Object
 	arg    types.Object
@@ -120,7 +215,199 @@ func (ev *c19eval) eval(e ast.Expr) absSeq {
 	return absSeq{ok: false, why: "expression outside the analysable subset: " + types.ExprString(e)}
 }
 
+// intExpr evaluates an int-typed expression to a linear form (false: not linear over d, n, c).
+func (ev *c19eval) intExpr(e ast.Expr) (lin, bool) {
+	switch x := ast.Unparen(e).(type) {
+	case *ast.BasicLit:
+		if x.Kind == token.INT {
+			k := 0
+			fmt.Sscan(x.Value, &k)
+			return linConst(k), true
+		}
+	case *ast.Ident:
+		if v, ok := ev.ip.ints[ev.info.Uses[x]]; ok {
+			return v, true
+		}
+	case *ast.BinaryExpr:
+		a, ok1 := ev.intExpr(x.X)
+		b, ok2 := ev.intExpr(x.Y)
+		if ok1 && ok2 {
+			switch x.Op {
+			case token.ADD:
+				return a.add(b, 1), true
+			case token.SUB:
+				return a.add(b, -1), true
+			}
+		}
+	case *ast.CallExpr:
+		id, ok := x.Fun.(*ast.Ident)
+		if !ok || len(x.Args) != 1 {
+			break
+		}
+		if _, isB := ev.info.Uses[id].(*types.Builtin); !isB {
+			break
+		}
+		arg := ast.Unparen(x.Args[0])
+		isRecv := false
+		if st, ok := arg.(*ast.StarExpr); ok {
+			if rid, ok := st.X.(*ast.Ident); ok && ev.info.Uses[rid] == ev.recv {
+				isRecv = true
+			}
+		}
+		isArg := false
+		if aid, ok := arg.(*ast.Ident); ok && ev.arg != nil && ev.info.Uses[aid] == ev.arg {
+			isArg = true
+		}
+		switch {
+		case id.Name == "len" && isRecv && ev.cur == nil:
+			return ev.ip.curLen, true
+		case id.Name == "cap" && isRecv && ev.cur == nil:
+			return linSym("c"), true
+		case id.Name == "len" && isArg:
+			return linSym("n"), true
+		}
+	}
+	return nil, false
+}
+
+// ipView: e as a range of cells: of the receiver's array ("recv") or of the argument ("arg").
+func (ev *c19eval) ipView(e ast.Expr) (arr string, lo, hi lin, ok bool) {
+	e = ast.Unparen(e)
+	var loE, hiE ast.Expr
+	if sl, isSl := e.(*ast.SliceExpr); isSl {
+		if sl.Slice3 {
+			return "", nil, nil, false
+		}
+		e, loE, hiE = ast.Unparen(sl.X), sl.Low, sl.High
+	}
+	var full lin
+	switch x := e.(type) {
+	case *ast.StarExpr:
+		if id, isID := x.X.(*ast.Ident); isID && ev.info.Uses[id] == ev.recv && ev.cur == nil {
+			arr, full = "recv", ev.ip.curLen
+		}
+	case *ast.Ident:
+		if ev.arg != nil && ev.info.Uses[x] == ev.arg {
+			arr, full = "arg", linSym("n")
+		}
+	}
+	if arr == "" {
+		return "", nil, nil, false
+	}
+	lo, hi = lin{}, full
+	if loE != nil {
+		v, okv := ev.intExpr(loE)
+		if !okv {
+			return "", nil, nil, false
+		}
+		lo = v
+	}
+	if hiE != nil {
+		v, okv := ev.intExpr(hiE)
+		if !okv {
+			return "", nil, nil, false
+		}
+		hi = v
+	}
+	return arr, lo, hi, true
+}
+
+// ipCopy: copy(dst, src) with dst a range of the receiver's array.
+func (ev *c19eval) ipCopy(dst, src ast.Expr) bool {
+	da, dlo, dhi, ok1 := ev.ipView(dst)
+	sa, slo, shi, ok2 := ev.ipView(src)
+	if !ok1 || !ok2 || da != "recv" {
+		return false
+	}
+	ip := ev.ip
+	ip.touched = true
+	dl, sl := dhi.add(dlo, -1), shi.add(slo, -1)
+	var count lin
+	switch sl.add(dl, -1).sign() {
+	case 0, 1: // len(src) >= len(dst)
+		count = dl
+	case -1:
+		count = sl
+	default:
+		ip.why = "copy length min(" + dl.String() + ", " + sl.String() + ") not decidable"
+		return true
+	}
+	srcName := "A"
+	if sa == "recv" {
+		srcName = "D"
+		// the cells read must still hold the entry contents: inside [0, d) and not written before
+		if slo.sign() == -1 || slo.sign() == 2 || linSym("d").add(slo.add(count, 1), -1).sign() == -1 || linSym("d").add(slo.add(count, 1), -1).sign() == 2 {
+			ip.why = "copy reads cells of the list's array outside its entry contents"
+			return true
+		}
+		for _, w := range ip.writes {
+			before := slo.add(w.hi, -1).sign()              // w.hi <= slo
+			after := w.lo.add(slo.add(count, 1), -1).sign() // w.lo >= slo+count
+			if !(before == 0 || before == 1 || after == 0 || after == 1) {
+				ip.why = "copy reads cells that an earlier copy may have overwritten"
+				return true
+			}
+		}
+	}
+	ip.writes = append(ip.writes, ipWrite{dlo, dlo.add(count, 1), srcName, slo})
+	return true
+}
+
+// ipVerdict compares the receiver after an in-place path with the expected contents.
+// expected: ordered atoms, e.g. ["A","D"]. Returns ("", "") ok; (violation, ""); ("", undecided).
+func (ev *c19eval) ipVerdict(expected []string) (violation, undecided string) {
+	ip := ev.ip
+	if ip.why != "" {
+		return "", ip.why
+	}
+	size := map[string]lin{"D": linSym("d"), "A": linSym("n")}
+	pos := lin{}
+	for _, atom := range expected {
+		lo, hi := pos, pos.add(size[atom], 1)
+		pos = hi
+		// the last write that touches [lo, hi) must be exactly (lo, hi, atom, 0); or, for D at
+		// offset 0 with no write touching it, the entry contents themselves
+		found := false
+		for i := len(ip.writes) - 1; i >= 0; i-- {
+			w := ip.writes[i]
+			disjoint := func() int { // 1 disjoint, 0 overlaps/unknown
+				a, b := lo.add(w.hi, -1).sign(), w.lo.add(hi, -1).sign()
+				if a == 0 || a == 1 || b == 0 || b == 1 {
+					return 1
+				}
+				return 0
+			}()
+			if disjoint == 1 {
+				continue
+			}
+			if w.src == atom && w.lo.add(lo, -1).isZero() && w.slo.isZero() {
+				diff := hi.add(w.hi, -1)
+				if diff.isZero() {
+					found = true
+					break
+				}
+				if sg := diff.sign(); sg == 1 {
+					return fmt.Sprintf("only %s of the %s elements of %s are moved to their place (cells from %s): the last %s are lost whenever that is > 0",
+						w.hi.add(w.lo, -1), size[atom], map[string]string{"D": "the list", "A": "the arguments"}[atom], lo, diff), ""
+				}
+			}
+			return "", fmt.Sprintf("cells [%s, %s) are written by a copy that is not the expected one", lo, hi)
+		}
+		if !found {
+			if atom == "D" && lo.isZero() {
+				continue // untouched entry contents
+			}
+			return fmt.Sprintf("cells [%s, %s) never receive %s", lo, hi, map[string]string{"D": "the list's old contents", "A": "the arguments"}[atom]), ""
+		}
+	}
+	if d := ip.curLen.add(pos, -1); !d.isZero() {
+		return fmt.Sprintf("the list ends up with length %s, an ordered list has %s", ip.curLen, pos), ""
+	}
+	return "", ""
+}
+
 type c19path struct {
+	ip          *ipState
 	val         absSeq
 	conditional bool
 }
@@ -132,9 +419,10 @@ func (ev *c19eval) run(list []ast.Stmt) (paths []c19path, undecided string) {
 		cur         *absSeq
 		vars        map[types.Object]absSeq
 		conditional bool
+		ip          *ipState
 	}
 	clone := func(s state) state {
-		n := state{conditional: s.conditional, vars: map[types.Object]absSeq{}}
+		n := state{conditional: s.conditional, vars: map[types.Object]absSeq{}, ip: s.ip.clone()}
 		if s.cur != nil {
 			c := *s.cur
 			n.cur = &c
@@ -146,14 +434,14 @@ func (ev *c19eval) run(list []ast.Stmt) (paths []c19path, undecided string) {
 	}
 	finish := func(s state, ret *absSeq) {
 		if ret != nil {
-			paths = append(paths, c19path{*ret, s.conditional})
+			paths = append(paths, c19path{ip: s.ip, val: *ret, conditional: s.conditional})
 			return
 		}
 		v := absSeq{atoms: []string{"D"}, base: "recv", ok: true}
 		if s.cur != nil {
 			v = *s.cur
 		}
-		paths = append(paths, c19path{v, s.conditional})
+		paths = append(paths, c19path{ip: s.ip, val: v, conditional: s.conditional})
 	}
 	var exec func(list []ast.Stmt, s state) (live []state)
 	exec = func(list []ast.Stmt, s state) []state {
@@ -161,12 +449,51 @@ func (ev *c19eval) run(list []ast.Stmt) (paths []c19path, undecided string) {
 		for _, st := range list {
 			var next []state
 			for _, cs := range live {
-				ev.cur, ev.vars = cs.cur, cs.vars
+				ev.cur, ev.vars, ev.ip = cs.cur, cs.vars, cs.ip
 				switch x := st.(type) {
 				case *ast.AssignStmt:
 					if len(x.Lhs) != 1 || len(x.Rhs) != 1 {
 						undecided = "multi-assignment"
 						return nil
+					}
+					// int locals (n := len(decs))
+					if id, ok := x.Lhs[0].(*ast.Ident); ok {
+						obj := ev.info.Defs[id]
+						if obj == nil {
+							obj = ev.info.Uses[id]
+						}
+						if obj != nil {
+							if b, isB := obj.Type().Underlying().(*types.Basic); isB && b.Info()&types.IsInteger != 0 {
+								ns := clone(cs)
+								if v, okv := ev.intExpr(x.Rhs[0]); okv && x.Tok != token.ADD_ASSIGN && x.Tok != token.SUB_ASSIGN {
+									ns.ip.ints[obj] = v
+								} else {
+									delete(ns.ip.ints, obj)
+								}
+								next = append(next, ns)
+								continue
+							}
+						}
+					}
+					// in-place re-slice of the receiver: *d = (*d)[:hi]
+					if star, ok := x.Lhs[0].(*ast.StarExpr); ok && x.Tok == token.ASSIGN && cs.cur == nil {
+						if id, ok := star.X.(*ast.Ident); ok && ev.info.Uses[id] == ev.recv {
+							if sl, isSl := ast.Unparen(x.Rhs[0]).(*ast.SliceExpr); isSl {
+								if arr, lo, hi, okv := ev.ipView(sl); okv && arr == "recv" && lo.isZero() {
+									ns := clone(cs)
+									ns.ip.touched = true
+									ns.ip.curLen = hi
+									next = append(next, ns)
+									continue
+								}
+							}
+						}
+					}
+					if cs.ip.touched {
+						ns := clone(cs)
+						ns.ip.why = "the list is rebuilt after its array was updated in place"
+						next = append(next, ns)
+						continue
 					}
 					v := ev.eval(x.Rhs[0])
 					if star, ok := x.Lhs[0].(*ast.StarExpr); ok {
@@ -202,8 +529,14 @@ func (ev *c19eval) run(list []ast.Stmt) (paths []c19path, undecided string) {
 					}
 				case *ast.IfStmt:
 					if x.Init != nil {
-						undecided = "if with init statement"
-						return nil
+						after := exec([]ast.Stmt{x.Init}, clone(cs))
+						if undecided != "" || len(after) != 1 {
+							if undecided == "" {
+								undecided = "if with a branching init statement"
+							}
+							return nil
+						}
+						cs = after[0]
 					}
 					a := clone(cs)
 					a.conditional = true
@@ -225,6 +558,12 @@ func (ev *c19eval) run(list []ast.Stmt) (paths []c19path, undecided string) {
 					if call, ok := x.X.(*ast.CallExpr); ok {
 						if id, ok := call.Fun.(*ast.Ident); ok && id.Name == "copy" && len(call.Args) == 2 {
 							if _, isB := ev.info.Uses[id].(*types.Builtin); isB {
+								ns := clone(cs)
+								ev.ip = ns.ip
+								if cs.cur == nil && ev.ipCopy(call.Args[0], call.Args[1]) {
+									next = append(next, ns)
+									continue
+								}
 								ev.copies = append(ev.copies, ev.eval(call.Args[0]))
 								next = append(next, cs)
 								continue
@@ -244,7 +583,7 @@ func (ev *c19eval) run(list []ast.Stmt) (paths []c19path, undecided string) {
 		}
 		return live
 	}
-	for _, s := range exec(list, state{vars: map[types.Object]absSeq{}}) {
+	for _, s := range exec(list, state{vars: map[types.Object]absSeq{}, ip: &ipState{curLen: linSym("d"), ints: map[types.Object]lin{}}}) {
 		finish(s, nil)
 	}
 	return
@@ -301,6 +640,23 @@ func (e *Env) C19() {
 				pk = fmt.Sprintf("%s path %d", key, pi+1)
 			}
 			val := pth.val
+			if pth.ip != nil && pth.ip.touched && !w.ret {
+				ev.ip = pth.ip
+				var expected []string
+				if w.atoms != "" {
+					expected = strings.Split(w.atoms, "·")
+				}
+				viol, und := ev.ipVerdict(expected)
+				switch {
+				case viol != "":
+					e.Run.Violation("R-LIST", pk+" contents (in-place update of the list's array)", pos, viol+"; an ordered list requires "+orEps(w.atoms)+" (D = old contents, A = arguments)")
+				case und != "":
+					e.Run.Undecided("R-LIST", pk+" contents (in-place update of the list's array)", pos, und)
+				default:
+					e.Run.OK("R-LIST", pk+" contents (in-place update of the list's array)", pos, "array segments: "+orEps(w.atoms))
+				}
+				continue
+			}
 			if !val.ok {
 				e.Run.Undecided("R-LIST", pk+" value", pos, val.why)
 				continue
